@@ -246,6 +246,11 @@ func (fc *FuncCtx) execBuiltin(fr *Frame, st *State, b *ssa.Builtin, com *ssa.Ca
 				return Val{T: c.Int(at.Len()), GoT: types.Typ[types.Int]}
 			}
 		}
+		if at, ok := v.tm.abstract[typeKey(com.Args[0].Type())]; ok && at.SeqLen != "" {
+			l := c.App(at.SeqLen, SInt, x)
+			st.assume(c, c.Cmp(">=", l, c.Int(0)))
+			return Val{T: l, GoT: types.Typ[types.Int]}
+		}
 		// abstract list types: length through a spec function lenOf_<sort> if declared
 		if sf, ok := v.specFuncs["len_"+sanitize(x.Sort.Name)]; ok {
 			env := &Env{v: v, vars: map[string]SV{}, st: st}
@@ -807,6 +812,55 @@ func matchCallPattern(pat, cshort string, ord int) bool {
 }
 
 // ------------------------------------------------------------ frame obligations of the verified function
+
+// allowedTargets evaluates the modifies clauses of the verified function in its entry state.
+func (fc *FuncCtx) allowedTargets() (map[string][]*Term, map[string]bool) {
+	v := fc.v
+	entry := fc.entry
+	env := fc.env(entry, entry)
+	env.vars = fc.paramVars()
+	allowedRefs := map[string][]*Term{}
+	allowedWorld := map[string]bool{}
+	for _, m := range fc.spec.Modifies {
+		switch {
+		case m.Kind == "id":
+			allowedWorld[m.Name] = true
+		case m.Kind == "un" && m.Name == "*":
+			if m.Args[0].Kind == "id" && m.Args[0].Name == "result" {
+				continue
+			}
+			pv, err := env.Eval(m.Args[0])
+			if err != nil {
+				panic(specError{fmt.Sprintf("modifies: %v", err)})
+			}
+			el := pointee(pv.GoT)
+			if el == nil {
+				panic(specError{fmt.Sprintf("modifies *%s: not a pointer", m.Args[0])})
+			}
+			hk := v.heapKeyFor(el)
+			allowedRefs[hk] = append(allowedRefs[hk], pv.T)
+		case m.Kind == "call" && m.Name == "elems":
+		default:
+			panic(specError{fmt.Sprintf("modifies clause %s not understood", m)})
+		}
+	}
+	return allowedRefs, allowedWorld
+}
+
+// heapFrameTerm: every pre-existing object of heap `key` that is not a modifies target has its entry value in st.
+func (fc *FuncCtx) heapFrameTerm(st *State, key string) *Term {
+	v := fc.v
+	c := v.c
+	allowed, _ := fc.allowedTargets()
+	alloc0 := v.getGlobal(fc.entry, "$alloc")
+	r := c.BoundVar("r", SInt)
+	conds := []*Term{c.Cmp("<=", c.Int(0), r), c.Cmp("<", r, alloc0)}
+	for _, a := range allowed[key] {
+		conds = append(conds, c.Not(c.Eq(r, a)))
+	}
+	body := c.Implies(c.And(conds...), c.Eq(c.Select(v.getGlobal(st, key), r), c.Select(v.getGlobal(fc.entry, key), r)))
+	return c.Quant(true, []*Term{r}, body)
+}
 
 func (fc *FuncCtx) frameObligations(final *State) {
 	v := fc.v
